@@ -21,7 +21,12 @@ def run(chk, prop=None):
     prop = prop or PROP
     chk.rule = RULES[prop]
     recs = core.run_driver('twins', tier=chk.tier, seed=chk.seed, args=dict(prop=prop), timeout=3000)
+    # stack_parameters / dict round trips are specification growth beyond the listed property (reported separately)
+    extra = [r for r in recs if 't=stack_params' in r.get('fp', '')]
+    recs = [r for r in recs if 't=stack_params' not in r.get('fp', '')]
     chk.validate('twins', 'Trace_MM', 'Trace_MM.cfg', recs, driver='twins', jobs=14)
+    if extra:
+        chk.validate('stack-parameters', 'Trace_MM', 'Trace_MM.cfg', extra, driver='twins', jobs=4, growth=True)
     goods = [r for r in recs if r['exc'] == '' and r['A'] and len(r['A'][0]['t']['data']) > 2]
     good = goods[0]
 
